@@ -88,6 +88,8 @@ int    xp_visit(const uint64_t key[2], int depth);
 void   xp_outcome(uint64_t h);           /* register an outcome class */
 void   xp_sample(const char *fmt, ...) __attribute__((format(printf, 1, 2)));
 void   xp_count(int idx, long n);
+extern volatile long xp_progress;      /* process-local progress counter watched by the guard */
+void   xp_guard(const char *san_as, volatile int *curproc, int catch_crashes);   /* CPU-time watchdog (+ crash handler) for executions of the code under test */
 
 /* record a violation (deduplicated by signature); writes a replay file */
 void   xp_violation(const char *sig, const char *fmt, ...) __attribute__((format(printf, 2, 3)));
